@@ -22,9 +22,17 @@ def configs(tier):
 
 
 def run(tier):
-    return _server.run(PID, tier, configs(tier),
+    from engine_a.driver import run_condition
+    # time is abstract in the model above; the waiting-time bound is checked on the real _enqueue under a virtual clock
+    unit = [(run_condition, ({'module': 'harness.C06_wait', 'func': 'check_enqueue_waits_no_longer_than_timeout',
+                              'timeout': 900 if tier == 'thorough' else 300, 'property': PID},))]
+    return _server.run(PID, tier, configs(tier), extra_jobs=unit, explanation=
                        'Real Server._enqueue/_wait_for_result/_gather_output/stream/__exit__ with the ledger as a symbolic '
                        'dict. State invariant len(ledger) <= capacity on every state of the inductive invariant; a '
                        'ServerBacklogFull without back-pressure and without a deadline is a FAIL; after all callers and '
                        'streams ended and the server exited, backlog must be 0 (slots of failed, timed-out, cancelled and '
-                       'abandoned requests are returned).')
+                       'abandoned requests are returned). Unit (CrossHair, harness/C06_wait.py): the real Server._enqueue '
+                       'on a stub condition with a virtual clock; the timeout, the instants of up to 3 notifications and which '
+                       'wake-ups find the freed slot already taken again are symbolic; whatever the outcome the caller is held no '
+                       'longer than its timeout, an accepted request is recorded and published once, a rejected one leaves no '
+                       'trace.')
